@@ -9,5 +9,5 @@ git -C /repo apply $D/patch.diff 2>/dev/null || git -C /repo apply -3 $D/patch.d
 OUT=$D/detect-$C.log
 ( ./check $C --tier $T ) > $OUT 2>&1; RC=$?
 echo "exit=$RC" >> $OUT
-git -C /repo checkout -- . ; git -C /repo reset -q 2>/dev/null
+git -C /repo reset -q --hard HEAD
 tail -5 $OUT
